@@ -16,6 +16,13 @@ CHECKS = {
             "ring laws are checked as metamorphic relations. Shows absence of disagreement on the explored cases only.",
             "Trusts pbt/model.py (cross-checked against sympy in setup), the prebuilt extension modules, and dyadic "
             "coefficient generation making float arithmetic exact.", "4 C01"),
+    "C14": ("exploration",
+            "bounded-exhaustive enumeration of option-call histories + Hypothesis-generated action lists vs a stack model",
+            "All valid histories of 5 (quick) / 7 (thorough) actions over a 12-action alphabet (enter/exit normally/"
+            "exit by Exception/BaseException, set_options, invalid keys, dict mutation) are enumerated and compared "
+            "with a stack model after every step; longer histories with arbitrary option values are sampled.",
+            "Single-threaded; blocks are driven through __enter__/__exit__ in LIFO order. Depth beyond the "
+            "enumeration bound is only sampled.", "4 C14"),
 }
 
 NOT_YET = "check not implemented yet in this revision of /verif (work in progress)"
